@@ -20,7 +20,7 @@ import elementpath.aliases as ta
 
 from elementpath.namespaces import XML_ID, XML_LANG
 from elementpath.datatypes import AnyURI, Float, DayTimeDuration, YearMonthDuration, \
-    StringProxy, AnyAtomicType, Duration
+    StringProxy, AnyAtomicType, Duration, UntypedAtomic
 from elementpath.helpers import get_double
 from elementpath.xpath_nodes import XPathNode, ElementNode, TextNode, CommentNode, \
     ProcessingInstructionNode, DocumentNode, EtreeElementNode
@@ -492,7 +492,13 @@ def evaluate__ceiling_and_floor_functions(self: XPathFunction, context: ta.Conte
         if isinstance(arg, float) and (math.isnan(arg) or math.isinf(arg)):
             return arg
 
-        assert isinstance(arg, (int, float, decimal.Decimal))
+        if isinstance(arg, UntypedAtomic):
+            arg = self.cast_to_double(arg.value)  # function conversion rules
+            if math.isnan(arg) or math.isinf(arg):
+                return arg
+        elif isinstance(arg, bool) or not isinstance(arg, (int, float, decimal.Decimal)):
+            raise TypeError(f"the argument has type {type(arg)!r} instead of xs:numeric")
+
         if self.symbol == 'floor':
             result = type(arg)(math.floor(arg))
         else:
@@ -504,9 +510,7 @@ def evaluate__ceiling_and_floor_functions(self: XPathFunction, context: ta.Conte
     except TypeError as err:
         if isinstance(context, XPathSchemaContext):
             return []
-        elif isinstance(arg, str):
-            raise self.error('XPTY0004', err) from None
-        raise self.error('FORG0006', err) from None
+        raise self.error('XPTY0004', err) from None
 
 
 @method(function('round', nargs=1, sequence_types=('xs:numeric?', 'xs:numeric?')))
